@@ -297,6 +297,18 @@ func runPassive(sc Script) *evid.Failure {
 			continue
 		}
 		for _, f := range fs {
+			if f.Pkt.Flags&(codec.SYN|codec.ACK) == codec.SYN|codec.ACK && f.Pkt.Flags&codec.RST == 0 {
+				// a SYN-ACK answers a connection request: a segment with SYN, without RST ("a reset is never answered")
+				explained := false
+				for _, r := range inj {
+					if r.tuple == k && r.step.Flags&codec.SYN != 0 && r.step.Flags&codec.RST == 0 && f.T.After(r.at) && f.Pkt.Ack == r.seg.Seq+1 {
+						explained = true
+					}
+				}
+				if !explained {
+					return evid.Failf("synack-unexplained", "the stack emitted %s although no SYN without RST with that sequence number was sent to it (a reset-bearing segment was answered, or a SYN-ACK was invented)\n%s", f.Pkt, render(inj, frames))
+				}
+			}
 			if f.Pkt.Flags&codec.RST == 0 {
 				continue
 			}
@@ -514,7 +526,7 @@ func genPassive(rt *rapid.T) Script {
 			// stay on the previous 4-tuple so that handshakes get follow-up segments
 			st.Peer, st.Closed = sc.Steps[i-1].Peer, sc.Steps[i-1].Closed
 		}
-		kind := rapid.SampledFrom([]string{"syn", "syn", "ack", "ack", "ack", "ackbad", "ackbad", "ackbad", "rst", "rstack", "fin", "finack", "synack", "data", "odd"}).Draw(rt, "kind")
+		kind := rapid.SampledFrom([]string{"syn", "syn", "ack", "ack", "ack", "ackbad", "ackbad", "ackbad", "rst", "rstack", "rstsyn", "fin", "finack", "synack", "data", "odd"}).Draw(rt, "kind")
 		st.SeqMode = rapid.SampledFrom([]int{1, 1, 1, 0, 2, 3}).Draw(rt, "seqmode")
 		st.SeqVal = rapid.OneOf(rapid.Uint32Range(0, 70000), rapid.Uint32()).Draw(rt, "seqval")
 		st.TSFix = rapid.IntRange(0, 4).Draw(rt, "tsfix") != 0
@@ -532,6 +544,10 @@ func genPassive(rt *rapid.T) Script {
 			st.AckVal = rapid.OneOf(rapid.Uint32Range(1, 5), rapid.Uint32Range(1<<24-2, 1<<24+4), rapid.Uint32()).Draw(rt, "ackval")
 		case "rst":
 			st.Flags = codec.RST
+		case "rstsyn":
+			// a reset that also carries SYN (and possibly more): must be treated as a reset
+			st.Flags = codec.RST | codec.SYN | uint8(rapid.SampledFrom([]int{0, 0, codec.FIN, codec.PSH, codec.URG}).Draw(rt, "rstsyn_extra"))
+			st.SeqMode = rapid.SampledFrom([]int{0, 0, 2, 3}).Draw(rt, "rstsyn_seq")
 		case "rstack":
 			st.Flags = codec.RST | codec.ACK
 			st.AckMode = rapid.IntRange(0, 5).Draw(rt, "ackmode")
